@@ -113,6 +113,11 @@ pub fn c12_letters(quick: bool) -> Vec<Step> {
     }
     v.push(Step::NewGame);
     v.push(Step::SetHash(2));
+    // the smallest advertised table (a single slot when the minimum is 0)
+    let min = crate::checks::advertised_hash_min();
+    if min != 2 {
+        v.push(Step::SetHash(min));
+    }
     v
 }
 
@@ -171,7 +176,7 @@ pub fn c12(run: &'static Run) -> (u64, u64) {
         n_sess.fetch_add(1, Ordering::Relaxed);
     });
     let a = n_sess.load(Ordering::Relaxed);
-    run.family("SAME-STATE", &format!("all sessions of length <= 3 over {} letters ({} searches (position x depth), ucinewgame, set hash 2) containing a search: executed on 4 independently built states under a real, a frozen, a +1 ms/read and a +1 h/read clock, workers running concurrently", letters.len(), letters.len() - 2), a, n_search.load(Ordering::Relaxed), true, "traces (best move, every info line without time/nps) and table statistics identical");
+    run.family("SAME-STATE", &format!("all sessions of length <= 3 over {} letters ({} searches (position x depth), ucinewgame, set hash 2, set hash to the advertised minimum) containing a search: executed on 4 independently built states under a real, a frozen, a +1 ms/read and a +1 h/read clock, workers running concurrently", letters.len(), letters.iter().filter(|s| matches!(s, Step::Search(..))).count()), a, n_search.load(Ordering::Relaxed), true, "traces (best move, every info line without time/nps) and table statistics identical");
     // (b) <H, ucinewgame, P> vs <P> on a fresh state
     let hs = sessions_upto(&letters, 2);
     let probe_letters: Vec<Step> = letters.iter().filter(|s| matches!(s, Step::Search(..))).cloned().collect();
@@ -721,7 +726,7 @@ pub fn c13(run: &'static Run) -> (u64, u64) {
             }
             scenarios.push(all);
             for v in [o.min, o.max, (o.min + o.max) / 2] {
-                scenarios.push(vec![set(&o.name, v), "go wtime 30000 btime 30000 movestogo 40 depth 3".into(), "go wtime 2000 btime 2000 winc 100 binc 100 depth 3".into(), "go movetime 5000 depth 3".into(), "go movetime 100 depth 3".into(), "go movetime 1 depth 2".into(), "go wtime 100 btime 100 depth 3".into()]);
+                scenarios.push(vec![set(&o.name, v), "go wtime 30000 btime 30000 movestogo 40 depth 3".into(), "go wtime 2000 btime 2000 winc 100 binc 100 depth 3".into(), "go movetime 5000 depth 3".into(), "go movetime 100 depth 3".into(), "go movetime 1 depth 2".into(), "go wtime 100 btime 100 depth 3".into(), "go movetime 60".into(), "go wtime 150 btime 150".into()]);
                 scenarios.push(vec![set(&o.name, v)]);
                 scenarios.push(vec!["go".into(), set(&o.name, v)]);
                 scenarios.push(vec!["go".into(), "ucinewgame".into(), set(&o.name, v)]);
